@@ -384,6 +384,25 @@ def main():
         if got != want or p.name != ref_quote(dsname):
             direct.append({"law": "parsing the printed DDS yields the same kinds, names, order, element types, shapes and dimension names",
                            "dataset": repr((dsname, kids)), "dds": text, "parsed": repr(got)[:1500], "expected": repr(want)[:1500]})
+        # the dataset has been printed: now the dimension names of one of its variables are assigned anew and it is printed again - the
+        # text declares the names the variable carries NOW
+        cand = [k for k in kids if k[0] == "base" and k[4] and len(k[4]) == len(k[3])]
+        if cand and (i < 10 or rng.random() < 0.3):
+            k0 = cand[0]
+            newd = tuple(reversed(k0[4])) if tuple(reversed(k0[4])) != tuple(k0[4]) else tuple(d_ for d_ in DIMS if d_ != k0[4][0])[:1] + tuple(k0[4][1:])
+            try:
+                ds[k0[1]].dims = list(newd)
+                text2 = "".join(dds(ds))
+                stats["dims_reassigned_after_print"] = stats.get("dims_reassigned_after_print", 0) + 1
+                print_cases.append("(%s, %s, %s)" % (ctext(ds.name), clist(list(ds.children()), lambda c: to_coq(c, seen_types)), ctext(text2)))
+                p3, err3 = parse(text2)
+                want3 = expected(("base", k0[1], k0[2], k0[3], newd), ref_quote)
+                got3 = None if err3 is not None else [plain(c) for c in p3.children() if c.name == want3[1]]
+                if got3 != [want3]:
+                    direct.append({"law": "the DDS declares the dimension names a variable carries when it is printed (assigned after an earlier print)",
+                                   "variable": k0[1], "dims_now": list(newd), "dds": text2[:1200], "parsed": repr(got3)[:600]})
+            except Exception as e:  # noqa
+                direct.append({"law": "a dataset whose dimension names were assigned anew can be printed and parsed", "error": repr(e)[:200]})
         again = "".join(dds(p))
         # parsing is a function of the text: edit the first result in place, parse the same text again
         try:
